@@ -23,6 +23,12 @@ REVISIONS = [
     ["u8", "u16", "u8", ["varr", "u16", 2]],
     ["u8", "u16", "u8", ["varr", "u16", 2], ["struct", ["u8"]], "bool"],
 ]
+# further families of revisions (same rule: each field list is a prefix of the next)
+FAMILIES = {
+    "ints": REVISIONS,
+    "bytes": [["u8"], ["u8", ["farr", "byte", 3]], ["u8", ["farr", "byte", 3], ["varr", "utf8", 2]]],
+    "varlen": [[["varr", "u8", 2]], [["varr", "u8", 2], "u16"], [["varr", "u8", 2], "u16", "u8"]],
+}
 MIN_EXTENT = 88  # longest representation of the longest revision, padded to a byte: 8+16+8+(8+32)+8+1 -> 88
 
 # containers: X marks the place of the appendable type; every container has something AFTER the nested object
@@ -45,12 +51,12 @@ def _subst(c: typing.Any, d: typing.Any) -> typing.Any:
     return [_subst(x, d) for x in c]
 
 
-def _build_pair(container: str, old: int, new: int, e: typing.Any, e2: typing.Any) -> typing.Tuple[typing.Any, typing.Any]:
+def _build_pair(container: str, old: int, new: int, e: typing.Any, e2: typing.Any, family: str = "ints") -> typing.Tuple[typing.Any, typing.Any]:
     """Two containers that differ only in the revision of the nested appendable type; same names on both sides."""
     out = []
     for rev in (old, new):
         T._counter[0] = 1000  # pylint: disable=protected-access  (same generated type names for both revisions)
-        d = ["delim", ["struct", REVISIONS[rev]], "e"]
+        d = ["delim", ["struct", FAMILIES[family][rev]], "e"]
         out.append(T.build(_subst(CONTAINERS[container], d), {"e": e, "e2": e2}))
     return out[0], out[1]
 
@@ -134,6 +140,14 @@ def _convert(v: typing.Dict[str, typing.Any], to_rev: int) -> typing.Dict[str, t
     return {"f%d" % i: (v["f%d" % i] if "f%d" % i in v else zero["f%d" % i]) for i in range(len(REVISIONS[to_rev]))}
 
 
+def _full_value(family: str, vals: typing.Sequence[typing.Any], n3: int) -> typing.Tuple[typing.Dict[str, typing.Any], typing.Dict[str, typing.Any]]:
+    """(value of the longest revision, what a reader sees for fields the writer did not know) for the other families."""
+    a, b, c, d, g = vals
+    if family == "bytes":
+        return ({"f0": a, "f1": bytes([65, 66, 67]), "f2": "hi"[:n3]}, {"f0": 0, "f1": bytes(3), "f2": ""})
+    return ({"f0": [a, c][:n3], "f1": b, "f2": g}, {"f0": [], "f1": 0, "f2": 0})
+
+
 def _wrap(container: str, xs: typing.List[typing.Any], t: typing.Sequence[typing.Any], variant_x: bool) -> typing.Any:
     """Container value around the nested object(s) xs; t = symbolic values of the surrounding fields."""
     if container == "field":
@@ -153,7 +167,8 @@ def _wrap(container: str, xs: typing.List[typing.Any], t: typing.Sequence[typing
     raise ValueError(container)
 
 
-def make_wire(container: str, writer: int, reader: int, n_objects: int, n3: int, variant_x: bool, c: int, pin: bool):
+def make_wire(container: str, writer: int, reader: int, n_objects: int, n3: int, variant_x: bool, c: int, pin: bool,
+              family: str = "ints"):
     e = 8 * c
     e2 = e + 64 * 8 if container == "nested" else e + 96 + 8  # the enclosing delimited type must admit X + its own fields
     e2 = e + 32 + 16 + 64
@@ -170,10 +185,20 @@ def make_wire(container: str, writer: int, reader: int, n_objects: int, n3: int,
         if container == "unaligned" and t0 != 77:
             return None  # the field after the nested object sits at a sub-byte offset: 2**8 paths if symbolic
         lo, hi = min(writer, reader), max(writer, reader)
-        told, tnew = _build_pair(container, lo, hi, e, e2)
+        told, tnew = _build_pair(container, lo, hi, e, e2, family)
         tw, tr = (told, tnew) if writer <= reader else (tnew, told)
-        xs_w = [_dvalue(writer, (a, b, cc, d, g), n3), _dvalue(writer, (cc, b + 0, a, d, g), n3)][:n_objects]
-        xs_r = [_convert(x, reader) for x in xs_w]
+        if family == "ints":
+            xs_w = [_dvalue(writer, (a, b, cc, d, g), n3), _dvalue(writer, (cc, b + 0, a, d, g), n3)][:n_objects]
+            xs_r = [_convert(x, reader) for x in xs_w]
+        else:
+            revs = FAMILIES[family]
+            xs_w, xs_r = [], []
+            for vals in ((a, b, cc, d, g), (cc, b + 0, a, d, g)):
+                full, zero = _full_value(family, vals, n3)
+                xw = {"f%d" % i: full["f%d" % i] for i in range(len(revs[writer]))}
+                xs_w.append(xw)
+                xs_r.append({"f%d" % i: (xw["f%d" % i] if "f%d" % i in xw else zero["f%d" % i]) for i in range(len(revs[reader]))})
+            xs_w, xs_r = xs_w[:n_objects], xs_r[:n_objects]
         vw = _wrap(container, xs_w, (t0, t1, t2), variant_x)
         want = _wrap(container, xs_r, (t0, t1, t2), variant_x)
         data = pydsdl.serialize(tw, vw)
@@ -232,6 +257,23 @@ def conditions(tier: str, seed: int) -> typing.List[Cond]:
                                              "extent %d bits; array length / union variant are scaffolding" % (8 * c)],
                                 witness={"a": 1, "b": 515, "cc": 7, "d": 40000, "g": 201, "t0": 77, "t1": 40000, "t2": 3},
                                 budget=240.0, need_exhaust=True))
+    for family in ("bytes", "varlen"):
+        nrev = len(FAMILIES[family])
+        for cname in CONTAINERS:
+            ps = [(i, j) for i in range(nrev) for j in range(nrev) if i != j]
+            if not thorough:
+                ps = rnd.sample(ps, 3) + [(0, 1), (1, 0)]
+            for w, r in ps:
+                nobj = 2 if cname in ("farray", "varray", "nested-array") else 1
+                for n3 in ((0, 1, 2) if thorough or family == "varlen" else (2,)):
+                    out.append(Cond(PROP, "c14.wire-" + family, make_wire,
+                                    {"container": cname, "writer": w, "reader": r, "n_objects": nobj, "n3": n3,
+                                     "variant_x": True, "c": rnd.choice([11, 12, 16]), "pin": True, "family": family},
+                                    {"a": int, "b": int, "cc": int, "d": int, "g": int, "t0": int, "t1": int, "t2": int},
+                                    assumptions=["revision family %s: %s" % (family, FAMILIES[family]),
+                                                 "integer leaves symbolic over their ranges (4 pinned)"],
+                                    witness={"a": 1, "b": 515, "cc": 7, "d": 40000, "g": 201, "t0": 77, "t1": 40000, "t2": 3},
+                                    budget=240.0, need_exhaust=True))
     return out
 
 
